@@ -1,7 +1,7 @@
 """C10 - search results obey the algebra of the search syntax"""
 from ..rules import config, search, mutation
 
-DECIDES = ("only the last sentence and structural necessary conditions of the rewrite rules: no duplicates (R-DEDUP, the insert sits in the yield's guard region), every result typed and of the searched type, dropped only for the named reasons, searched patterns remembered per type (R-SKIPS); a ',' list in a query is distributed (R-ORSCOPE); '**' includes zero levels (R-EXPAND); aliases unfolded everywhere (R-UNFOLDALL). Also: the cached typing lists the unfolders share are never mutated (R-MUT); the configuration picks the source by type alone, so a literal, a '*' and a filtered search are answered from the same data (R-FINDERROUTE). leaf_keys entries (R-LEAFKEYS).")
+DECIDES = ("only the last sentence and structural necessary conditions of the rewrite rules: no duplicates (R-DEDUP, the insert sits in the yield's guard region), every result typed and of the searched type, dropped only for the named reasons, searched patterns remembered per type (R-SKIPS); a ',' list in a query is distributed (R-ORSCOPE); '**' includes zero levels (R-EXPAND); aliases unfolded everywhere (R-UNFOLDALL). Also: the cached typing lists the unfolders share are never mutated (R-MUT); the configuration picks the source by type alone, so a literal, a '*' and a filtered search are answered from the same data (R-FINDERROUTE). leaf_keys entries (R-LEAFKEYS). Every placeholder expression of the sid templates accepts the search symbols '*' and '>' (R-SEARCHSYM).")
 DOES_NOT_DECIDE = 'the five rewrite relations themselves: they compare the result sets of two runtime searches'
 
 
@@ -17,4 +17,5 @@ def rules(ctx, tier):
         lambda: search.rule_narrow(ctx),
         lambda: search.rule_constvalid(ctx),
         lambda: config.rule_leafkeys(ctx),
+        lambda: config.rule_searchsym(ctx),
     ]
